@@ -201,7 +201,7 @@ reg("C07",
       for k, t in (("n3_1_1_1", "thorough"), ("n3_0_2_1", "thorough"), ("n4_2_1_1", "thorough"), ("n4_1_0_3", "thorough"), ("n2_1_1_1", "thorough"))],
     *[H("c07", "c07_heartbeat_e2e_%s" % k, tier=t, bounds="7-byte heartbeat payload split in 2 (%s, concrete); real payload parser; type, payload, padding symbolic" % k,
         funcs=_RP + ["parse_tls_record_with_header", "parse_tls_message_heartbeat"], timeout=900, mem=12)
-      for k, t in (("cut2_pl2", "quick"), ("cut0_pl1", "quick"), ("cut4_pl4", "thorough"))],
+      for k, t in (("cut0_pl1", "quick"), ("cut0_pl4", "quick"))],
     *[H("c07", "c07_any_state_step_d%d" % d, bounds="one call (operation kind, content type, %d data bytes symbolic) from an arbitrary valid state: idle with <= 3 left-over bytes or in progress with <= 3 buffered bytes; model message length 1..4 symbolic" % d,
         stubs=["parse_tls_record_with_header (model callee)"], funcs=_RP + ["verif_from_parts (hook)"], timeout=900, mem=12) for d in (0, 1, 2)],
     )
@@ -403,7 +403,7 @@ reg("C06",
     *_pick("C10", ["c10_hs_serverdone", "c10_hs_hello_verify_request"]),
     *_pick("C13", ["c13_dh_params", "c13_ec_parameters", "c13_ecdh_params", "c13_digitally_signed"]),
     *_pick("C14", ["c14_sct_single", "c14_sct_list_wiring"]),
-    *_pick("C07", ["c07_lockstep_2_n3_1_2", "c07_heartbeat_e2e_cut2_pl2"]),
+    *_pick("C07", ["c07_lockstep_2_n3_1_2", "c07_heartbeat_e2e_cut0_pl1"]),
     )
 
 # ------------------------------------------------------------------------------------------------ C01
